@@ -573,6 +573,94 @@ theorem dekker_default_bit_exact_f32 (lib : Libm) (x y : Nat) (sx sy : Bool) (mx
   rw [hfm] at this
   exact ⟨_, _, this.1, this.2, rfl, by ring⟩
 
+/-- **`mul_dekker(x, y)` with its DEFAULT options on BIT PATTERNS (float16).**  For all operand patterns that decode
+to normal numbers m·2^e with |value| ≤ x_max (63488), e ≥ emin + 6 and ex + ey ≥ emin, whenever the run is
+defined and none of its float-valued nodes is non-finite: value(h) = RNE(x·y) and value(h) + value(l) = x·y exactly. -/
+theorem dekker_default_bit_exact_f16 (lib : Libm) (x y : Nat) (sx sy : Bool) (mx my : Nat) (ex ey : Int)
+    (dx : decode binary16 x = .fin sx mx ex) (dy : decode binary16 y = .fin sy my ey)
+    (nx : 2 ^ 10 ≤ mx) (ny : 2 ^ 10 ≤ my) (hex : binary16.emin + 6 ≤ ex) (hey : binary16.emin + 6 ≤ ey) (hund : binary16.emin ≤ ex + ey)
+    (Xm : ℚ) (hXm : (decode binary16 31680).toRat? = some Xm) (hxm : |valQ sx mx ex| ≤ Xm) (hym : |valQ sy my ey| ≤ Xm)
+    (env : Array Nat) (he : evalNodes binary16 lib [x, y] mul_dekker_scale_f16.nodes #[] = some env)
+    (hfin : ∀ (i : Nat) (v : Nat), env[i]? = some v → dekkerScaleKinds[i]? = some false → isFiniteBits binary16 v = true)
+    (h l : Nat) (ho : mul_dekker_scale_f16.eval lib [x, y] = some [h, l]) :
+    ∃ qh ql : ℚ, toQ binary16 h = some qh ∧ toQ binary16 l = some ql ∧
+      qh = rne (qf binary16 (by decide)) (valQ sx mx ex * valQ sy my ey) ∧ qh + ql = valQ sx mx ex * valQ sy my ey := by
+  have hf : WF binary16 := ⟨by decide, by decide⟩
+  have hfm : mul_dekker_scale_f16.fmt = binary16 := by decide
+  have hk : kindsOf mul_dekker_scale_f16.nodes [] = some dekkerScaleKinds := by decide +kernel
+  have hko : ∀ o ∈ mul_dekker_scale_f16.outs, dekkerScaleKinds[o]? = some false := by decide
+  obtain ⟨bx1, bx2⟩ := decode_bounds binary16 hf x sx mx ex dx
+  obtain ⟨by1, by2⟩ := decode_bounds binary16 hf y sy my ey dy
+  have hins := insRel2 (finite_of_decode _ _ _ _ _ dx) (finite_of_decode _ _ _ _ _ dy) (toQ_fin _ x sx mx ex dx) (toQ_fin _ y sy my ey dy)
+  have habs : ∀ (s : Bool) (m : Nat), |(if s then -(m : ℤ) else (m : ℤ))| = (m : ℤ) := by
+    intro s m; cases s <;> simp
+  obtain ⟨-, -, -, cc, -, -⟩ := ties_split_scaled
+  obtain ⟨⟨u1, u2⟩, -, -⟩ := ties_dekker_scaled
+  obtain ⟨cC, -, -⟩ := split_constants
+  have ci : (decode binary16 9216).toRat? = some (1 / 2 ^ 6) := by have := congrArg (·.1) cc; simpa using this
+  have cN : (decode binary16 21504).toRat? = some (2 ^ 6) := by have := congrArg (·.2.1) cc; simpa using this
+  have c1 : (decode binary16 15360).toRat? = some 1 := by have := congrArg (·.2.2) cc; simpa using this
+  have c0 : (decode binary16 0).toRat? = some 0 := by decide +kernel
+  have hq : mul_dekker_scale_f16.evalQ (rne (qf binary16 hf.hp)) [valQ sx mx ex, valQ sy my ey] =
+      some [rne (qf binary16 hf.hp) (valQ sx mx ex * valQ sy my ey), valQ sx mx ex * valQ sy my ey - rne (qf binary16 hf.hp) (valQ sx mx ex * valQ sy my ey)] := by
+    unfold Prog.evalQ
+    rw [u1, u2, hfm]
+    exact dekker_product_scaled (qf binary16 hf.hp) _ (isRN_rne _) binary16 _ _ _ _ _ _ 6 6 Xm cC hXm c0 c1 ci cN
+      (by show 11 ≤ 2 * 6; norm_num) (by show 2 * 6 ≤ 11 + 2; norm_num) (by show 6 + 2 ≤ 11; norm_num)
+      (if sx then -(mx : ℤ) else mx) (if sy then -(my : ℤ) else my) ex ey
+      (by rw [habs]; exact_mod_cast nx) (by rw [habs]; exact_mod_cast bx1)
+      (by rw [habs]; exact_mod_cast ny) (by rw [habs]; exact_mod_cast by1)
+      (by show binary16.emin ≤ ex - ((6 : ℕ) : ℤ); omega) (by show binary16.emin ≤ ey - ((6 : ℕ) : ℤ); omega) hund
+      _ _ (valQ_int sx mx ex) (valQ_int sy my ey) hxm hym
+  have := transfer2' mul_dekker_scale_f16 (by rw [hfm]; exact hf) dekkerScaleKinds hk hko lib [x, y] _ (by rw [hfm]; exact hins) env
+    (by rw [hfm]; exact he) (by rw [hfm]; exact hfin) h l ho _ _ hq
+  rw [hfm] at this
+  exact ⟨_, _, this.1, this.2, rfl, by ring⟩
+
+/-- **`mul_dekker(x, y)` with its DEFAULT options on BIT PATTERNS (float64).**  For all operand patterns that decode
+to normal numbers m·2^e with |value| ≤ x_max (1.79769e308), e ≥ emin + 27 and ex + ey ≥ emin, whenever the run is
+defined and none of its float-valued nodes is non-finite: value(h) = RNE(x·y) and value(h) + value(l) = x·y exactly. -/
+theorem dekker_default_bit_exact_f64 (lib : Libm) (x y : Nat) (sx sy : Bool) (mx my : Nat) (ex ey : Int)
+    (dx : decode binary64 x = .fin sx mx ex) (dy : decode binary64 y = .fin sy my ey)
+    (nx : 2 ^ 52 ≤ mx) (ny : 2 ^ 52 ≤ my) (hex : binary64.emin + 27 ≤ ex) (hey : binary64.emin + 27 ≤ ey) (hund : binary64.emin ≤ ex + ey)
+    (Xm : ℚ) (hXm : (decode binary64 9218868437093187584).toRat? = some Xm) (hxm : |valQ sx mx ex| ≤ Xm) (hym : |valQ sy my ey| ≤ Xm)
+    (env : Array Nat) (he : evalNodes binary64 lib [x, y] mul_dekker_scale_f64.nodes #[] = some env)
+    (hfin : ∀ (i : Nat) (v : Nat), env[i]? = some v → dekkerScaleKinds[i]? = some false → isFiniteBits binary64 v = true)
+    (h l : Nat) (ho : mul_dekker_scale_f64.eval lib [x, y] = some [h, l]) :
+    ∃ qh ql : ℚ, toQ binary64 h = some qh ∧ toQ binary64 l = some ql ∧
+      qh = rne (qf binary64 (by decide)) (valQ sx mx ex * valQ sy my ey) ∧ qh + ql = valQ sx mx ex * valQ sy my ey := by
+  have hf : WF binary64 := ⟨by decide, by decide⟩
+  have hfm : mul_dekker_scale_f64.fmt = binary64 := by decide
+  have hk : kindsOf mul_dekker_scale_f64.nodes [] = some dekkerScaleKinds := by decide +kernel
+  have hko : ∀ o ∈ mul_dekker_scale_f64.outs, dekkerScaleKinds[o]? = some false := by decide
+  obtain ⟨bx1, bx2⟩ := decode_bounds binary64 hf x sx mx ex dx
+  obtain ⟨by1, by2⟩ := decode_bounds binary64 hf y sy my ey dy
+  have hins := insRel2 (finite_of_decode _ _ _ _ _ dx) (finite_of_decode _ _ _ _ _ dy) (toQ_fin _ x sx mx ex dx) (toQ_fin _ y sy my ey dy)
+  have habs : ∀ (s : Bool) (m : Nat), |(if s then -(m : ℤ) else (m : ℤ))| = (m : ℤ) := by
+    intro s m; cases s <;> simp
+  obtain ⟨-, -, -, -, -, cc⟩ := ties_split_scaled
+  obtain ⟨-, -, ⟨u1, u2⟩⟩ := ties_dekker_scaled
+  obtain ⟨-, -, cC⟩ := split_constants
+  have ci : (decode binary64 4485585228861014016).toRat? = some (1 / 2 ^ 27) := by have := congrArg (·.1) cc; simpa using this
+  have cN : (decode binary64 4728779608739020800).toRat? = some (2 ^ 27) := by have := congrArg (·.2.1) cc; simpa using this
+  have c1 : (decode binary64 4607182418800017408).toRat? = some 1 := by have := congrArg (·.2.2) cc; simpa using this
+  have c0 : (decode binary64 0).toRat? = some 0 := by decide +kernel
+  have hq : mul_dekker_scale_f64.evalQ (rne (qf binary64 hf.hp)) [valQ sx mx ex, valQ sy my ey] =
+      some [rne (qf binary64 hf.hp) (valQ sx mx ex * valQ sy my ey), valQ sx mx ex * valQ sy my ey - rne (qf binary64 hf.hp) (valQ sx mx ex * valQ sy my ey)] := by
+    unfold Prog.evalQ
+    rw [u1, u2, hfm]
+    exact dekker_product_scaled (qf binary64 hf.hp) _ (isRN_rne _) binary64 _ _ _ _ _ _ 27 27 Xm cC hXm c0 c1 ci cN
+      (by show 53 ≤ 2 * 27; norm_num) (by show 2 * 27 ≤ 53 + 2; norm_num) (by show 27 + 2 ≤ 53; norm_num)
+      (if sx then -(mx : ℤ) else mx) (if sy then -(my : ℤ) else my) ex ey
+      (by rw [habs]; exact_mod_cast nx) (by rw [habs]; exact_mod_cast bx1)
+      (by rw [habs]; exact_mod_cast ny) (by rw [habs]; exact_mod_cast by1)
+      (by show binary64.emin ≤ ex - ((27 : ℕ) : ℤ); omega) (by show binary64.emin ≤ ey - ((27 : ℕ) : ℤ); omega) hund
+      _ _ (valQ_int sx mx ex) (valQ_int sy my ey) hxm hym
+  have := transfer2' mul_dekker_scale_f64 (by rw [hfm]; exact hf) dekkerScaleKinds hk hko lib [x, y] _ (by rw [hfm]; exact hins) env
+    (by rw [hfm]; exact he) (by rw [hfm]; exact hfin) h l ho _ _ hq
+  rw [hfm] at this
+  exact ⟨_, _, this.1, this.2, rfl, by ring⟩
+
 /-- non-vacuity of `dekker_bit_exact_f32`: x = y = 1 + 2^-23 (pattern 0x3f800001) is normal, the run is
 defined and every node is finite -/
 example : decode binary32 0x3f800001 = .fin false (2 ^ 23 + 1) (-23) ∧
